@@ -65,15 +65,13 @@ func (w *responseWriter) callBefore() {
 }
 
 func (w *responseWriter) WriteHeader(s int) {
-	w.writeHeaderOnce.Do(func() {
-		if w.Written() {
-			return
-		}
-
-		w.callBefore()
-		w.ResponseWriter.WriteHeader(s)
-		atomic.StoreInt32(&w.status, int32(s))
-	})
+	// The before functions run at most once. When one of them panics the header
+	// stays unsent, so that a recovering handler is still able to send its own.
+	w.writeHeaderOnce.Do(w.callBefore)
+	if !atomic.CompareAndSwapInt32(&w.status, 0, int32(s)) {
+		return
+	}
+	w.ResponseWriter.WriteHeader(s)
 }
 
 func (w *responseWriter) Write(b []byte) (size int, err error) {
